@@ -536,9 +536,9 @@ serviceCanaries:
 		x13X("canary-without-header", "serviceCanaries.1.header", x13DropMark),
 		x13X("canary-without-filter", "serviceCanaries.1.filter", x13DropMark),
 	)
-	add("KafkaBackend", x13FilterHTTP, `
-kind: KafkaBackend
-name: kafkabackend
+	add("Kafka", x13FilterHTTP, `
+kind: Kafka
+name: kafka
 backend: ["@KAFKA@"]
 topic:
   default: verif-topic
@@ -549,9 +549,9 @@ topic:
 	)
 
 	// ------------------------------------------------------------------ MQTT filters
-	add("Kafka", x13FilterMQTT, `
-kind: Kafka
-name: kafka
+	add("KafkaMQTT", x13FilterMQTT, `
+kind: KafkaMQTT
+name: kafkamqtt
 backend: ["@KAFKA@"]
 topic:
   default: verif-topic
